@@ -742,6 +742,10 @@ pub fn run(report: &mut Report, replay: Option<&str>) {
         let spans = spans_for(thorough, &mut rng, false);
         work.push((family.to_owned(), blk, spans));
     }
+    for (family, blk) in const_family() {
+        let spans = spans_for(thorough, &mut rng, false);
+        work.push((family.to_owned(), blk, spans));
+    }
     for (family, blk) in number_family(&mut rng, thorough) {
         let spans = spans_for(thorough, &mut rng, false);
         work.push((family.to_owned(), blk, spans));
